@@ -342,9 +342,38 @@ func (o *oC01) OnIdle(k *Kernel) {
 			k.Violate("C01", "never-dropped", "finished-row-never-deleted", fmt.Sprintf("pipeline idle, these seeds were reported finished to the local queue but their rows were never deleted: %v", kept))
 		}
 	}
+	// crawl HQ: a hand-out that HQ applied and whose answer never reached the crawler (connection reset after the
+	// claim, or the client's timeout) takes those rows out of this crawl; what was planted on them is void
+	void := map[string]bool{}
+	if o.r.hq != nil {
+		for _, c := range o.r.hq.snapshot() {
+			if c.Kind == "get" && c.Applied && (c.Lost || c.Fault == "reset-after") {
+				for _, u := range c.Out {
+					void[uriKey(u.Value)] = true
+					k.Probe("c01-hq-handouts-lost")
+				}
+			}
+		}
+	}
 	var miss []string
 	for key, res := range o.r.sc.Site {
+		if void[key] {
+			continue
+		}
 		if res.Expect == scen.MustEnd && !o.t.requestedBefore(key, 1<<30) {
+			// the expectation was planted through a particular seed (the hub page that links to it, the page that embeds it):
+			// it only stands while that seed is a row of the queue (minimisation drops rows)
+			if via := res.Tags["outlink-of"] + res.Tags["needed-by"]; via != "" {
+				inQueue := false
+				for _, q := range o.r.sc.Queue {
+					if q.Value == via {
+						inQueue = true
+					}
+				}
+				if !inQueue || void[uriKey(via)] {
+					continue
+				}
+			}
 			miss = append(miss, key)
 		}
 	}
